@@ -440,12 +440,13 @@ class BasinProxyFeature(np.lib.mixins.NDArrayOperatorsMixin):
         return np.array(self._cache, copy=copy)
 
     def __getattr__(self, item):
-        if item in [
-            "dtype",
-            "shape",
-            "size",
-        ]:
-            return getattr(self.feat_obj, item)
+        if item == "dtype":
+            return self.feat_obj.dtype
+        elif item == "shape":
+            # The first axis is defined by the mapping, not by the basin.
+            return (len(self.basinmap),) + tuple(self.feat_obj.shape[1:])
+        elif item == "size":
+            return int(np.prod(self.shape))
         else:
             raise AttributeError(
                 f"BasinProxyFeature does not implement {item}")
